@@ -318,13 +318,17 @@ func Discharge(results []*FnResult, opts DischargeOpts) (stats map[string]int, s
 			}
 			// stage 1: the usually-fastest solver alone (keeps the machine from being oversubscribed);
 			// stage 2: the full portfolio raced with the full timeout
-			stage1 := opts.Timeout / 3
+			full := opts.Timeout
+			if j.c.timeoutFactor > 1 {
+				full = time.Duration(float64(full) * j.c.timeoutFactor)
+			}
+			stage1 := full / 3
 			if stage1 < 4*time.Second {
 				stage1 = 4 * time.Second
 			}
 			r := Race(path, stage1, solvers[:1])
 			if r.Status != "sat" && r.Status != "unsat" {
-				r = Race(path, opts.Timeout, solvers)
+				r = Race(path, full, solvers)
 			}
 			if r.Status == "unsat" && opts.Cross {
 				// second opinion from a different solver
@@ -342,13 +346,19 @@ func Discharge(results []*FnResult, opts DischargeOpts) (stats map[string]int, s
 					r.Solver += "+" + r2.Solver
 				}
 			}
-			if r.Status == "sat" && !j.o.MustBeSat && j.c.sizeHints != "" {
+			if r.Status == "sat" && !j.o.MustBeSat && j.c.sizeHints+j.c.nilHints != "" {
 				// prefer a small model (replayable): same query plus size bounds on slice inputs
 				hpath := strings.TrimSuffix(path, ".smt2") + "__small.smt2"
-				os.WriteFile(hpath, []byte(j.c.Script(j.inst, true, j.c.sizeHints)), 0o644)
+				os.WriteFile(hpath, []byte(j.c.Script(j.inst, true, j.c.sizeHints+j.c.nilHints)), 0o644)
 				if rh := Race(hpath, opts.Timeout, solvers[:1]); rh.Status == "sat" {
 					r.Output = rh.Output
 					path = hpath
+				} else {
+					os.WriteFile(hpath, []byte(j.c.Script(j.inst, true, j.c.sizeHints)), 0o644)
+					if rh := Race(hpath, opts.Timeout, solvers[:1]); rh.Status == "sat" {
+						r.Output = rh.Output
+						path = hpath
+					}
 				}
 			}
 			mu.Lock()
